@@ -470,6 +470,61 @@ fn run_tomb<K: KeyT, V: ValT>(a: &Args) {
         }
         ex(&mut w, json!({"op":"Iter","s":1,"kind":"iter","extra":1}));
         ex(&mut w, json!({"op":"DropMap","s":1}));
+        // exact-fit scenario: a pending resize whose old table holds a multiple of R elements,
+        // shrunk to the bare minimum, then filled to capacity (and one more)
+        let cap2 = [0usize, 3, 14, 28][(run % 4) as usize];
+        ex(&mut w, json!({"op":"New","s":1,"ty":"map","cap":cap2,"hm":hm,"hs":0}));
+        for _ in 0..200 {
+            let st = w.vstate(1).unwrap();
+            if st.split && st.old_len >= 8 {
+                break;
+            }
+            ex(&mut w, json!({"op":"Insert","s":1,"k":next_key,"v":1}));
+            next_key += 1;
+        }
+        let r = w.vstate(1).unwrap().r;
+        for _ in 0..40 {
+            let st = w.vstate(1).unwrap();
+            if !st.split || st.old_len % r == 0 {
+                break;
+            }
+            if let Some(o) = w.resolve(&json!({"op":"Remove","s":1,"k":{"cls":"old","i":rng.gen_range(0..50)}})) {
+                ex(&mut w, o);
+            }
+        }
+        // remove elements until main + old + ceil(old/R) is exactly a hashbrown capacity, with the old
+        // table still holding a multiple of R: shrink_to_fit then leaves no slack at all
+        {
+            let st = w.vstate(1).unwrap();
+            let (mut rm_old, mut rm_main) = (0usize, rng.gen_range(0..5usize).min(st.main_len));
+            'search: for oo in (1..=st.old_len / r).rev().map(|x| x * r) {
+                let need_old = oo + oo / r;
+                for t in [3usize, 7, 14, 28, 56, 112] {
+                    if t >= need_old && t - need_old <= st.main_len {
+                        rm_old = st.old_len - oo;
+                        rm_main = st.main_len - (t - need_old);
+                        break 'search;
+                    }
+                }
+            }
+            for _ in 0..rm_old {
+                if let Some(o) = w.resolve(&json!({"op":"Remove","s":1,"k":{"cls":"old","i":rng.gen_range(0..50)}})) {
+                    ex(&mut w, o);
+                }
+            }
+            for _ in 0..rm_main {
+                if let Some(o) = w.resolve(&json!({"op":"Remove","s":1,"k":{"cls":"main","i":rng.gen_range(0..50)}})) {
+                    ex(&mut w, o);
+                }
+            }
+        }
+        ex(&mut w, json!({"op":"ShrinkToFit","s":1}));
+        ex(&mut w, json!({"op":"Probe","s":1}));
+        for _ in 0..3 {
+            ex(&mut w, json!({"op":"Insert","s":1,"k":next_key,"v":1}));
+            next_key += 1;
+        }
+        ex(&mut w, json!({"op":"DropMap","s":1}));
         drop(ex);
         emit(&mut out, &json!({"op":"EndRun","live_ids": live_ids(), "live_allocs": live_tables()}));
     }
